@@ -166,6 +166,7 @@ func (proj *Project) saveIndex() error {
 		return err
 	}
 	defer f.Close()
+	verifCrash("index.created", "")
 
 	index := index{
 		Flags:   make([]*Flag, 0, len(proj.args)),
